@@ -67,6 +67,21 @@ func (p *Parser) parseNext() error {
 	c := p.data[p.pos]
 
 	// Check for potential operator (starts with letter)
+	// The keywords true, false and null are operands wherever they stand
+	if kw, ok := p.keywordAt(p.pos); ok {
+		p.pos += len(kw)
+		switch kw {
+		case "true":
+			p.operandStack = append(p.operandStack, core.Bool(true))
+		case "false":
+			p.operandStack = append(p.operandStack, core.Bool(false))
+		default:
+			p.operandStack = append(p.operandStack, core.Null{})
+		}
+		return nil
+	}
+
+	// Check if it's an operator (starts with letter)
 	if isLetter(c) {
 		return p.parseOperator()
 	}
@@ -160,24 +175,14 @@ func (p *Parser) parseOperand() (core.Object, error) {
 	}
 
 	// Boolean or null
-	if c == 't' || c == 'f' || c == 'n' {
-		// Check if it's actually an operator
-		// Peek ahead to see if followed by whitespace
-		end := p.pos
-		for end < len(p.data) && !isWhitespace(p.data[end]) {
-			end++
-		}
-		token := string(p.data[p.pos:end])
-
-		switch token {
+	if kw, ok := p.keywordAt(p.pos); ok {
+		p.pos += len(kw)
+		switch kw {
 		case "true":
-			p.pos = end
 			return core.Bool(true), nil
 		case "false":
-			p.pos = end
 			return core.Bool(false), nil
-		case "null":
-			p.pos = end
+		default:
 			return core.Null{}, nil
 		}
 	}
@@ -492,6 +497,19 @@ func (p *Parser) parseDict() (core.Object, error) {
 }
 
 // skipWhitespace advances past PDF whitespace characters.
+// keywordAt reports whether one of the keywords true, false, null stands at pos,
+// ended by whitespace, a delimiter or the end of the data.
+func (p *Parser) keywordAt(pos int) (string, bool) {
+	for _, kw := range []string{"true", "false", "null"} {
+		end := pos + len(kw)
+		if end <= len(p.data) && string(p.data[pos:end]) == kw &&
+			(end == len(p.data) || isWhitespace(p.data[end]) || isDelimiter(p.data[end])) {
+			return kw, true
+		}
+	}
+	return "", false
+}
+
 func (p *Parser) skipWhitespace() {
 	for p.pos < len(p.data) {
 		c := p.data[p.pos]
